@@ -23,6 +23,9 @@ type c07Case struct {
 	In    string `json:"in"`   // decode: input bytes (hex); encode: canonical value (hex); hex: literal string
 	Nil   bool   `json:"nil,omitempty"`
 	Class string `json:"class"`
+	// Move (encode cases): the scalar object first holds Move.From and is encoded, is then driven to In's value through one
+	// mutator of the public API, and only then goes through the encode checks.
+	Move *mon.ScalarMove `json:"move,omitempty"`
 }
 
 func init() {
@@ -38,7 +41,7 @@ func init() {
 		Run:      c07Run,
 		Finish:   c07Finish,
 		Require: func(string) map[string]int64 {
-			return map[string]int64{"decode:accept": 1000, "decode:reject:>=n": 500, "decode:reject:length": 200, "decode:reject:empty": 6, "encode": 1000, "hex:invalid": 3}
+			return map[string]int64{"decode:accept": 1000, "decode:reject:>=n": 500, "decode:reject:length": 200, "decode:reject:empty": 6, "encode": 1000, "encode:moved": 200, "hex:invalid": 3}
 		},
 	})
 
@@ -93,6 +96,15 @@ func c07Generate(c *mon.Ctx) {
 		c.Structured(func() any { return &c07Case{Kind: "encode", In: in, Class: cl} })
 	}
 
+	// scalars that reached their value through each mutator of the API (not by writing limbs)
+	hr := c.SharedRng("moves")
+	for rep := 0; rep < c.N(12, 400); rep++ {
+		for _, via := range mon.ScalarVias {
+			mv := mon.PlanScalarMove(via, hr)
+			c.Structured(func() any { return &c07Case{Kind: "encode", In: mv.To, Class: "moved:" + mv.Via, Move: &mv} })
+		}
+	}
+
 	g := mon.H(oracle.Bytes32(big.NewInt(0xabcdef)))
 	for _, s := range []string{g, strings.ToUpper(g), g[:len(g)-1], "0x" + g, g + " ", "zz" + g[2:], "", g + g, mon.H(oracle.Bytes32(n)), mon.H(oracle.Bytes32(new(big.Int).Sub(n, big.NewInt(1))))} {
 		s := s
@@ -142,6 +154,22 @@ func c07Run(c *mon.Ctx, csAny any) {
 		v := mon.BigH(cs.In)
 		s := mon.Scal(v)
 		want := oracle.Bytes32(v)
+
+		if cs.Move != nil {
+			s = mon.Scal(mon.BigH(cs.Move.From))
+			_, _ = s.Encode(), s.Hex()
+
+			if pan, pv := mon.Call(func() { mon.ApplyScalarMove(s, *cs.Move) }); pan {
+				if mon.IsHarnessPanic(pv) {
+					panic(pv)
+				}
+
+				c.Fail(fmt.Sprintf("scalar mutator %s panicked: %v", cs.Move.Via, pv), "scalar-move-panic", nil)
+				return
+			}
+
+			c.Count("encode:moved")
+		}
 
 		c.Eval(3)
 		c.Count("encode")
